@@ -312,7 +312,7 @@ impl Prop for C09T {
                         // fixed by the statement itself: the overflow marker, handler-raised
                         // values (number and text verbatim) and the empty answer
                         Some(Error::QueueOverflow) => want_resp.extend_from_slice(b"-350,\"Queue overflow\"\n"),
-                        Some(Error::Custom(code, text)) => want_resp.extend_from_slice(format!("{code},\"{text}\"\n").as_bytes()),
+                        Some(Error::Custom(code, text)) => want_resp.extend_from_slice(format!("{code},\"{}\"\n", text.replace('"', "\"\"")).as_bytes()),
                         // standard errors the workloads produce: the standard's number and text
                         Some(e) if simcore::world::STANDARD_TEXT.iter().any(|(n, _)| *n == e.number()) => {
                             let (n, t) = simcore::world::STANDARD_TEXT.iter().find(|(n, _)| *n == e.number()).unwrap();
